@@ -137,7 +137,7 @@ def oracle_case(cid, c, out):
                 seen.add(tuple(g[:5]))
             if res == "err":
                 st["err"] += 1
-        elif f[0] in ("R", "Y"):
+        elif f[0] in ("R", "Y", "R0"):
             st["restart"] += 1
         elif f[0] in ("S", "SB", "SF"):
             st["snap"] += 1
@@ -156,7 +156,7 @@ def oracle_case(cid, c, out):
             fails.append("applied data shrank at %s: %d -> %d" % (op, prev_len, jl))
         if f[0] in ("T", "P", "K"):
             st["snapop"] = st.get("snapop", 0) + 1
-        frozen = ("D", "X", "S", "SB", "SF", "R", "Y", "T", "P", "K") if kind == "A" else ("S", "R")   # kind B: T/P/K are whole rpcs that apply
+        frozen = ("D", "X", "S", "SB", "SF", "R", "Y", "T", "P", "K") if kind == "A" else (("S", "R", "R0", "T", "P") if kind == "M" else ("S", "R"))   # kind B: T/P/K are whole rpcs that apply
         if f[0] in frozen and (s != prev_s or jl != prev_len):
             fails.append("%s changed the replica state: synced %s -> %s, journal %d -> %d" % (op, prev_s, s, prev_len, jl))
         changed = [cl for cl in s if s[cl] != prev_s.get(cl)]
